@@ -120,7 +120,7 @@ impl Run {
             let max_w = (u64::MAX as u128) / wdiv;
             cfgv["stake"]["maxW"] = json!(if max_w < (1 << 30) { max_w as i64 } else { -1 });
             cfgv["stake"]["tpwUnits"] = json!(if tpw_log >= 0 { 1 } else { n(st, "tpw") });
-            let period = if s(&st["period"], "k") == "h" { Duration::Height(n(&st["period"], "v")) } else { Duration::Time(n(&st["period"], "v")) };
+            let period = if s(&st["period"], "k") == "h" { Duration::Height(n(&st["period"], "v")) } else { Duration::Time(ticks_to_secs(n(&st["period"], "v"))) };
             let msg = cw4_stake::msg::InstantiateMsg {
                 denom: if cw20 { cw20::Denom::Cw20(t.clone()) } else { cw20::Denom::Native(STK.into()) },
                 tokens_per_weight: Uint128::new(tpw_real),
@@ -392,7 +392,7 @@ pub fn rand_cfg(rng: &mut Rng) -> Value {
     if stake {
         let scale = *rng.pick(&[0u64, 0, 40, 60, 100]);
         let tpw_log: i64 = if scale == 60 && rng.chance(2, 3) { 0 } else { -1 };
-        let period = if rng.chance(1, 2) { json!({"k":"h","v":rng.range(1,3)}) } else { json!({"k":"t","v":rng.range(5,25)}) };
+        let period = if rng.chance(1, 2) { json!({"k":"h","v":rng.range(1,3)}) } else { json!({"k":"t","v":10 * rng.range(1,2)}) };
         json!({"flavour":"stake","admin":admin,"members":[],
             "stake":{"denom": if rng.chance(1,2) {"native"} else {"cw20"}, "scale":scale, "tpw": rng.range(1,3), "tpwLog": tpw_log,
                      "minBond": rng.range(0,4), "period": period}})
